@@ -194,5 +194,70 @@ def sampler_suite(ctx, suite, n, all_atom_only=False, oracle=None):
     for _ in range(n):
         if ctx.out_of_time():
             break
-        case = gen_case(rng, all_atom=True if all_atom_only else None)
+        gen = gen_case_wellformed if rng.random() < 0.7 else gen_case
+        case = gen(rng, all_atom=True if all_atom_only else None)
         run_sampler_case(ctx, suite, case, oracle=oracle)
+
+
+def gen_case_wellformed(rng, all_atom=None):
+    """fragment sets in which growth can always continue: every descriptor has a complement"""
+    aa = rng.random() < 0.4 if all_atom is None else all_atom
+    style = rng.choice(['arrow', 'dollar', 'mixed', 'labelled'])
+    nf = rng.randint(1, 3)
+    frags = []
+    descs = set()
+
+    def atom(j):
+        return rng.choice(['C', 'C', 'O', 'N', 'c1ccccc1' if j else 'C']) if aa else '[#X%d]' % j
+    for i in range(nf):
+        n = rng.randint(1, 3)
+        body = [atom(j) for j in range(n)]
+        if aa:
+            body = ['C' if b.startswith('c1') and j == 0 else b for j, b in enumerate(body)]
+        order = rng.choice([1, 1, 1, 2]) if not aa else 1
+        sym = '=' if order == 2 else ''
+        lab = {'arrow': '', 'dollar': '', 'mixed': '', 'labelled': rng.choice(['a', 'b'])}[style]
+        if style in ('arrow', 'labelled') or (style == 'mixed' and i % 2 == 0):
+            d1, d2 = '>' + lab, '<' + lab
+        else:
+            d1 = d2 = '$' + lab
+        body[0] = body[0] + sym + '[' + d1 + ']'
+        body[-1] = body[-1] + sym + '[' + d2 + ']'
+        descs.update([d1 + str(order), d2 + str(order)])
+        if rng.random() < 0.3:
+            extra = rng.choice([d1, d2])
+            body[rng.randrange(n)] += sym + '[' + extra + ']'
+        frags.append('#F%d=%s' % (i, ''.join(body)))
+    ter = []
+    if rng.random() < 0.4:
+        # a terminal fragment with a single descriptor that complements an existing one
+        d = sorted(descs)[0]
+        comp = {'>': '<', '<': '>', '$': '$'}[d[0]] + d[1:-1]
+        tlab = 'T'
+        if d[0] == '$':
+            tdesc = '$' + tlab
+        else:
+            tdesc = comp
+        sym = '=' if d[-1] == '2' else ''
+        frags.append('#END=%s%s[%s]' % ('C' if aa else '[#E]', sym, tdesc))
+        descs.add(tdesc + d[-1])
+        if rng.random() < 0.7:
+            ter = [tdesc + d[-1] if rng.random() < 0.5 or d[-1] != '1' else tdesc]
+    descs = sorted(descs)
+    pr = {}
+    for d in descs:
+        key = d[:-1] if (rng.random() < 0.5 and d[-1] == '1') else d
+        pr[key] = rng.choice([0.2, 0.5, 1, 1, 0])
+    if all(v == 0 for v in pr.values()):
+        pr[next(iter(pr))] = 1
+    fr = {}
+    for d in descs:
+        if rng.random() < 0.3:
+            fr[d] = {e: rng.choice([0, 0.3, 1, 1]) for e in descs}
+    case = {'kind': 'sampler', 's': '{' + ','.join(frags) + '}', 'all_atom': aa, 'poly': pr, 'fragr': fr, 'terminals': ter,
+            'seed': rng.randint(0, 10 ** 6), 'target': rng.choice([1, 3, 5, 12, 40]) + (0.5 if aa else 0),
+            'start': rng.choice([None, None, 'F0'])}
+    if not aa:
+        case['masses'] = {('F%d' % i): rng.choice([1, 2, 10]) for i in range(nf)}
+        case['masses']['END'] = rng.choice([1, 3])
+    return case
